@@ -331,6 +331,11 @@ func (c *xsyncMapOf[K, V]) GetAndDelete(k K) (V, bool) {
 	if ec != nil {
 		ec(k, i.v)
 	}
+	if i.expired() {
+		// removed an expired item that was not cleaned up yet: not found
+		var v V
+		return v, false
+	}
 	return i.v, true
 }
 
